@@ -185,12 +185,8 @@ def _perms(skel, question):
 
 
 def ex_model(ex, pc, bad):
-    old = ex.pc
-    ex.pc = list(pc)
-    try:
-        return ex.model([bad])
-    finally:
-        ex.pc = old
+    ex.with_pc(pc)
+    return ex.model([bad])
 
 
 def _concrete_defs(skel, outs, assign_list):
